@@ -53,7 +53,7 @@ func genConfCase(t *rapid.T) interface{} {
 			op.Pick = rapid.IntRange(0, 5).Draw(t, "pick")
 			op.Unknown = rapid.IntRange(0, 9).Draw(t, "unknown") == 0
 			op.XChain = rapid.IntRange(0, 9).Draw(t, "xchain") == 0
-			op.Signer = rapid.SampledFrom([]int{0, 0, 0, 0, 0, 1, 2, 3}).Draw(t, "signer")
+			op.Signer = rapid.SampledFrom([]int{0, 0, 0, 0, 0, 1, 2, 3, 4, 4}).Draw(t, "signer")
 			op.BadSig = rapid.IntRange(0, 5).Draw(t, "badsig") == 0
 		case k < 65:
 			op.Kind = "mkbatch"
@@ -102,9 +102,10 @@ func runConfCase(ci interface{}, rec *pbt.Rec) *pbt.Failure {
 	c := ci.(*ConfCase)
 	keys := []string{"ethereum", "bsc"}
 	cfg := sim.Config{Tokens: attTokens, Prices: []sim.PriceCfg{{Name: "hub", Value: "1"}, {Name: "eth", Value: "1"}, {Name: "bnb", Value: "1"}},
-		Vals: []sim.ValCfg{{Power: 10, Bonded: true, Keys: keys}, {Power: 12, Bonded: true, Keys: keys}, {Power: 5, Bonded: true}, {Power: 9, Bonded: false, Keys: keys}}}
+		Vals: []sim.ValCfg{{Power: 10, Bonded: true, Keys: keys}, {Power: 12, Bonded: true, Keys: keys}, {Power: 5, Bonded: true, Keys: []string{"ethereum"}}, {Power: 9, Bonded: false, Keys: keys}}}
 	h := sim.NewHub(cfg)
-	hasKey := []bool{true, true, false, true}
+	// validator 2 registered keys on ethereum only
+	hasKeyOn := func(v int, ch string) bool { return v != 2 || ch == "ethereum" }
 	alt := map[string]int{} // chain|validator -> index of the key currently registered
 	curAddr := func(v int, ch string) common.Address { return sim.EthAddr(v, ch, alt[fmt.Sprintf("%s|%d", ch, v)]) }
 	h.Fund(sim.UserAddr(0), "hub", new(big.Int).Lsh(big.NewInt(1), 100))
@@ -416,7 +417,7 @@ func runConfCase(ci interface{}, rec *pbt.Rec) *pbt.Failure {
 				resolved = v
 			case 1:
 				signerAcc = sim.OrchAddr(v)
-				if hasKey[v] {
+				if hasKeyOn(v, ch) {
 					resolved = v // orchestrators are registered together with the keys
 				}
 			case 2:
@@ -424,7 +425,7 @@ func runConfCase(ci interface{}, rec *pbt.Rec) *pbt.Failure {
 			case 3:
 				o := (v + 1) % 4
 				signerAcc = sim.OrchAddr(o)
-				if hasKey[o] {
+				if hasKeyOn(o, ch) {
 					resolved = o
 				}
 			}
@@ -442,6 +443,13 @@ func runConfCase(ci interface{}, rec *pbt.Rec) *pbt.Failure {
 				}
 			case 2:
 				claimed = common.Address{}
+			case 4:
+				// the sender's address on the OTHER chain
+				oc := confChains[(op.Chain+1)%2]
+				claimed = curAddr(v, oc)
+				if resolved >= 0 {
+					claimed = curAddr(resolved, oc)
+				}
 			default:
 				claimed = sim.ExtUser(6)
 			}
@@ -454,7 +462,7 @@ func runConfCase(ci interface{}, rec *pbt.Rec) *pbt.Failure {
 				return pbt.Failf("harness", "%v", err)
 			}
 			registered := common.Address{}
-			if resolved >= 0 && hasKey[resolved] {
+			if resolved >= 0 && hasKeyOn(resolved, ch) {
 				registered = curAddr(resolved, ch)
 			}
 			// the message names its chain itself; the confirmation only carries the tx identity, so a
